@@ -16,7 +16,7 @@ How it works (no knowledge of individual macro names is built in):
         Leaf     anything else (hand-written leaf — must be a leaf known to coq/model/Forms.v)
         Unknown  header or types the extractor does not understand (cannot pass `check_form`).
 """
-import re, hashlib
+import re, hashlib, os, json
 
 SCALARS = ["u8", "u16", "u32", "u64", "u128", "usize", "i8", "i16", "i32", "i64", "i128", "isize"]
 BIN = {"Add": "add", "Sub": "sub", "Mul": "mul", "Div": "div", "Rem": "rem", "BitAnd": "bitand",
@@ -783,6 +783,20 @@ def extract(src):
     rep["shapes"] = shapes
     rep["unknown_invocations"] = unknown_inv[:20]
     rep["ignored_operator_impls"] = sorted(set(ignored))
-    rep["leaf_body_hashes"] = leaf_hashes
+    # drift sentinel (DESIGN 3-C): hand-written leaf bodies against the hashes the leaf models were
+    # written against; a changed hash is reported, it is not a violation
+    pin_path = os.path.join(os.path.dirname(os.path.abspath(__file__)), "forms_leaves.json")
+    if os.environ.get("VERIF_PIN_LEAF_HASHES"):
+        with open(pin_path, "w") as f:
+            json.dump(leaf_hashes, f, indent=0, sort_keys=True)
+    try:
+        pinned = json.load(open(pin_path))
+    except Exception:
+        pinned = None
+    if pinned is None:
+        rep["leaf_drift"] = "no pin file"
+    else:
+        rep["leaf_drift"] = sorted(n for n in set(pinned) | set(leaf_hashes) if pinned.get(n) != leaf_hashes.get(n))[:40]
+    rep["leaves"] = len(leaf_hashes)
     rep["names_sha"] = hashlib.sha256("+".join(r[0] for r in rows).encode()).hexdigest()[:16]
     return ["Base", "Forms"], text, rep
